@@ -29,3 +29,9 @@ package nodes
 //@ func IsNodeExcludedFromBalancers
 //@   ensures result == Excluded(n)
 //@   modifies nothing
+
+// the node addresses of one family (used by the configuration parser to refuse pools that contain a node address)
+//@ func NodeIPsForFamily
+//@   trusted
+//@   ensures result == nil || fresh(result)
+//@   modifies fresh []net.IP
